@@ -14,6 +14,9 @@ type Workload struct {
 	Capn    int
 }
 
+// Manual reports whether the workload runs with ManualFlush on both endpoints.
+func Manual(name string) bool { return name == "manual-flush-send-then-receive" }
+
 // A builds an action.
 func A(op byte, size int) prog.Act { return prog.Act{Op: op, Size: size} }
 
@@ -72,6 +75,15 @@ var Workloads = []Workload{
 	{"undecodable-message", func() []*prog.Script {
 		// one message in each direction that the receiver's decoder rejects; both sides carry on afterwards
 		return []*prog.Script{{Tag: 1, Client: []prog.Act{A('s', 10), A('r', 0), A('u', 12), A('r', 0), A('h', 0), A('R', 0)}, Handler: []prog.Act{A('r', 0), A('u', 15), A('r', 0), A('s', 20), A('R', 0)}}}
+	}, 0, -1},
+	{"raw-receives", func() []*prog.Script {
+		// both sides receive through the raw entry point (single receives and a drain)
+		return []*prog.Script{{Tag: 1, Client: []prog.Act{A('s', 10), A('v', 0), A('s', 1200), A('v', 0), A('h', 0), A('V', 0)}, Handler: []prog.Act{A('v', 0), A('s', 11), A('v', 0), A('s', 1300), A('V', 0)}}}
+	}, 0, -1},
+	{"manual-flush-send-then-receive", func() []*prog.Script {
+		// both endpoints leave flushing to the application, which never flushes: what was sent goes out
+		// with the next receive, the half-close or the handler's return
+		return []*prog.Script{{Tag: 1, Client: []prog.Act{A('s', 10), A('r', 0), A('s', 1200), A('r', 0), A('h', 0), A('R', 0)}, Handler: []prog.Act{A('r', 0), A('s', 11), A('r', 0), A('s', 1300), A('R', 0)}}}
 	}, 0, -1},
 	{"rendezvous-unary-big", func() []*prog.Script {
 		return []*prog.Script{{Tag: 1, Unary: true, ReqSize: 6000, Handler: []prog.Act{A('r', 0), A('s', 6000)}}}
